@@ -2,7 +2,7 @@
     the processor received ([Rd] actions of the trace, in order) followed by the input left. *)
 From Coq Require Import ZArith List String Bool Lia.
 From TV Require Import Layout.Types Base.Bytes Model.Monad Model.Constraints Model.Ints Model.Decoder Model.Message
-  Model.Pump Proofs.Closure.
+  Model.Pump Proofs.Closure Proofs.LowClosure.
 Import ListNotations.
 Open Scope Z_scope.
 
@@ -106,79 +106,34 @@ Proof.
   intros Hm Hh s tr s' o H. unfold catch_exceeded in H.
   destruct (m s) as [[tr1 s1] o1] eqn:E1. specialize (Hm _ _ _ _ E1).
   destruct o1 as [a|e| |k|]; try (inv_run H; exact Hm).
-  destruct e as [| c v b | | | |]; try (inv_run H; exact Hm).
+  destruct e as [| c v b | | | | |]; try (inv_run H; exact Hm).
   destruct (abort || negb (existsb (Nat.eqb (si_id c)) ids)); [inv_run H; exact Hm|].
   destruct (h s1) as [[tr2 s2] o2] eqn:E2. specialize (Hh _ _ _ _ E2). inv_run H.
   rewrite bytes_of_app. cbn [bytes_of]. rewrite <- app_assoc, <- Hh. exact Hm.
 Qed.
 
-Lemma acc_bp_walk ids p size : accounts (bp_walk ids p size).
+Lemma accounts_lclosed : lclosed (@accounts).
 Proof.
-  induction ids as [|i r IH]; cbn [bp_walk]; [apply acc_ret|].
-  apply acc_bind; [apply acc_get|]. intros s.
-  destruct (sc_obs (get_sc s i)).
-  - apply acc_bind; [apply acc_remove_lst|]. intros _. apply IH.
-  - destruct (exceeds (get_sc s i) size).
-    + apply acc_bind; [apply acc_set_sc|]. intros _.
-      apply acc_bind; [apply acc_consume|]. intros _. apply acc_fail.
-    + apply acc_bind; [apply acc_set_sc|]. intros _. apply IH.
-Qed.
-
-Lemma acc_bytes_parsed p size : accounts (bytes_parsed p size).
-Proof. unfold bytes_parsed. apply acc_bind; [apply acc_get|]. intros s. apply acc_bp_walk. Qed.
-
-Lemma acc_set_constraint abort i p n : accounts (set_constraint abort i p n).
-Proof.
-  unfold set_constraint. destruct (n <? 0); [apply acc_internal|].
-  apply acc_bind; [apply acc_get|]. intros s.
-  apply acc_bind; [apply acc_set_sc|]. intros _.
-  apply acc_bind; [apply acc_get|]. intros s'.
-  destruct (anticipate _ _ _ _) as [[ci b]|]; [|apply acc_ret].
-  destruct abort; [apply acc_fail|apply acc_emit_wn].
-Qed.
-
-Lemma acc_assert_done abort i : accounts (assert_done abort i).
-Proof.
-  unfold assert_done. apply acc_bind; [apply acc_get|]. intros s.
-  destruct (sc_max (get_sc s i)); [|apply acc_internal].
-  apply acc_bind; [apply acc_set_sc|]. intros _.
-  destruct (_ =? _); [apply acc_ret|].
-  destruct abort; [apply acc_fail|].
-  apply acc_bind; [apply acc_emit_wn|]. intros _. apply acc_consume.
-Qed.
-
-Lemma acc_dec_prim abort p pa : accounts (dec_prim abort p pa).
-Proof.
-  unfold dec_prim. apply acc_bind; [apply acc_bytes_parsed|]. intros _.
-  apply acc_bind; [apply acc_readn|]. intros bs.
-  destruct (valid p _).
-  - apply acc_bind; [apply acc_emit_ev|]. intros _. apply acc_ret.
-  - destruct abort; [apply acc_fail|].
-    apply acc_bind; [apply acc_emit_ev|]. intros _.
-    apply acc_bind; [apply acc_emit_wn|]. intros _. apply acc_ret.
-Qed.
-
-Lemma accounts_closed abort : closed abort (@accounts).
-Proof.
-  constructor; intros.
+  constructor.
   - apply acc_ret.
-  - apply acc_bind; assumption.
+  - intros. apply acc_bind; assumption.
   - apply acc_get.
   - apply acc_fail.
   - apply acc_internal.
   - apply acc_fuel.
-  - apply acc_emit_ev.
-  - apply acc_dec_prim.
+  - intros [b|e|w] H; [contradiction|apply acc_emit_ev|apply acc_emit_wn].
+  - apply acc_read1.
+  - apply acc_consume.
+  - apply acc_set_sc.
   - apply acc_new_sc.
-  - apply acc_set_constraint.
-  - apply acc_append_lst.
   - apply acc_set_lst.
-  - apply acc_assert_done.
-  - apply acc_catch; assumption.
+  - apply acc_append_lst.
+  - apply acc_remove_lst.
+  - intros. apply acc_catch; assumption.
 Qed.
 
 Theorem accounts_dec_root T abort r : accounts (dec_root T abort r).
-Proof. apply P_dec_root. apply accounts_closed. Qed.
+Proof. apply L_dec_root. apply accounts_lclosed. Qed.
 
 (** the pump: number of bytes sent = number of [Rd] actions seen *)
 Lemma pump_go_nrd is_stream len tr ps ps' stopped :
